@@ -463,7 +463,7 @@ func c22Diff(exp, got frame.Frame) string {
 		name := t.Field(i).Name
 		ef, gf := ev.Field(i), gv.Field(i)
 		if name == "Framer" {
-			e, g := ef.Interface().(frame.Framer), gf.Interface().(frame.Framer)
+			e, g := c22FramerOf(exp), c22FramerOf(got)
 			if e.FrameType != g.FrameType {
 				return "Framer.FrameType"
 			}
